@@ -48,7 +48,11 @@ def main():
         print(sid, out[sid], flush=True)
     rc, st = sh("git -C /repo status --short")
     assert st.strip() == "", st
-    json.dump(out, open("/verif/seeded/REGRESS.json", "w"), indent=1)
+    allr = {}
+    if os.path.exists("/verif/seeded/REGRESS.json"):
+        allr = json.load(open("/verif/seeded/REGRESS.json"))
+    allr.update(out)
+    json.dump(allr, open("/verif/seeded/REGRESS.json", "w"), indent=1, sort_keys=True)
     bad = [s for s, r in out.items() if r["status"] not in ("detected", "recorded-as-missed")]
     print("DONE", len(out), "seeds;", "not detected:", bad)
 
